@@ -394,7 +394,8 @@ def check_sync(c, f):
     g = f.cfg
     resp = [n.ast.targets[0].id for n in g.nodes if n.kind == 'stmt' and isinstance(n.ast, ast.Assign) and isinstance(n.ast.value, ast.Call)
             and callee_last(n.ast.value) == 'try_read_prompt' and isinstance(n.ast.targets[0], ast.Name)]
-    c.need(len(resp) >= 2, 'sync_original_prompt: responses of try_read_prompt not found')
+    n_reads = len([k for k in calls_in(f.node) if callee_last(k) == 'try_read_prompt'])
+    c.need(n_reads >= 2 and len(resp) >= 1, 'sync_original_prompt: responses of try_read_prompt not found')
     lens = {}
     for n in g.nodes:
         if n.kind == 'stmt' and isinstance(n.ast, ast.Assign) and isinstance(n.ast.targets[0], ast.Name) and isinstance(n.ast.value, ast.Call) \
